@@ -1,5 +1,6 @@
 import Rangers.Basic.Hex
 import Rangers.Model.RewardFloat
+import Rangers.Generated.NondetSites
 /-!
 # Block execution (`core.VMExecutor.Execute`) as a pure function — property C01
 
@@ -57,8 +58,10 @@ structure St where
   nonce : Addr → Nat
   escrow : Nat → Addr → Nat
   miners : List MinerRec
+  diff : Nat → Nat := fun _ => 0     -- storage(DifficultyAddress)[castor id]: blocks proposed in the window
+  working : Nat := 0                 -- storage(DifficultyAddress)[TotalWorkingMiners]
 
-def St.empty : St := ⟨fun _ => 0, fun _ => 0, fun _ _ => 0, []⟩
+def St.empty : St := ⟨fun _ => 0, fun _ => 0, fun _ _ => 0, [], fun _ => 0, 0⟩
 
 def addBal (s : St) (a : Addr) (v : Nat) : St := { s with bal := upd s.bal a (s.bal a + v) }
 def subBal (s : St) (a : Addr) (v : Nat) : St := { s with bal := upd s.bal a (s.bal a - v) }
@@ -521,12 +524,49 @@ def groupRefunds : List (Nat × Addr × Nat) → List (Nat × List (Addr × Nat)
 structure Header where
   height : Nat
   p004Block : Nat
+  p010Block : Nat := 0xFFFFFFFFFFFFFFFF
+  p019Block : Nat := 0xFFFFFFFFFFFFFFFF
+  p025Block : Nat := 0xFFFFFFFFFFFFFFFF
+  castor : Nat := 0
   deriving Repr, DecidableEq, Inhabited
 
 /-- what `GetAllRefund(generateAddress(h))` returns, as far as the model's escrow goes:
     the entries of the candidate ids with a non-zero amount. -/
 def refundList (s : St) (h : Nat) (ids : List Addr) : List (Addr × Nat) :=
   (ids.filter (fun a => s.escrow h a != 0)).map (fun a => (a, s.escrow h a))
+
+/-- `MinerManager.RemoveMiner(id, account, type, db, 0)` for an account that is not a contract:
+    all four keys are emptied -/
+def deleteMiner (s : St) (id typ : Nat) : St :=
+  { s with miners := s.miners.map (fun m =>
+      if m.id = id ∧ m.typ = typ ∧ m.alive then
+        { m with stake := 0, hasAccount := false, status := m.jsonStatus, alive := false } else m) }
+
+/-- `removeUnusedValidator` (height = Proposal010Block): the hard-coded ids (list regenerated from
+    the source) that are validators are removed -/
+def removeUnused010 (s : St) : St :=
+  Rangers.Generated.NondetSites.unusedValidators010.foldl (fun s id =>
+    if s.miners.any (fun m => m.id == id && m.typ == 0 && m.alive) then deleteMiner s id 0 else s) s
+
+/-- `removeUnusedValidator1` → `MinerManager.RemoveUnusedValidator` (height = Proposal019Block):
+    every validator the iterator yields with status normal that is not on the white list -/
+def removeUnused019 (s : St) : St :=
+  let unused := s.miners.filter (fun m => m.inParent && m.typ == 0 && m.status == 0
+    && !(Rangers.Generated.NondetSites.whitelist019.contains m.id))
+  unused.foldl (fun s m => deleteMiner s m.id 0) s
+
+/-- `calcDifficulty`, first part (height < Proposal025Block + rewardBlocks; the second part needs
+    the header `rewardBlocks` below and is not modelled) -/
+def calcDifficulty (hd : Header) (s : St) : St :=
+  if hd.height < hd.p025Block then s
+  else if s.diff hd.castor = 0 then
+    { s with diff := upd s.diff hd.castor 1, working := s.working + 1 }
+  else { s with diff := upd s.diff hd.castor (s.diff hd.castor + 1) }
+
+/-- what `Execute` does between the transaction loop and `after()` -/
+def specialHeights (hd : Header) (s : St) : St :=
+  let s1 := if hd.height = hd.p010Block then removeUnused010 s else s
+  if hd.height = hd.p019Block then removeUnused019 s1 else s1
 
 /-- the reward part of `after()`: `CalculateReward` + `RefundManager.Add` of its result -/
 def rewardStepIn (ρ : Orders) (reward : Option RewardIn) (s : St) : St :=
@@ -542,7 +582,7 @@ def rewardStepIn (ρ : Orders) (reward : Option RewardIn) (s : St) : St :=
 /-- `after()` for situation ≠ "testing" on the main chain, height below Proposal025. -/
 def afterIn (ρ : Orders) (hd : Header) (reward : St → Option RewardIn) (ids : List Addr)
     (refunds : List (Nat × Addr × Nat)) (s : St) : St :=
-  let s1 := refundAddIn (ρ.refund (groupRefunds refunds [])) s
+  let s1 := refundAddIn (ρ.refund (groupRefunds refunds [])) (calcDifficulty hd (specialHeights hd s))
   let s2 := rewardStepIn ρ (reward s1) s1
   let s3 := checkAndMoveIn hd.height (ρ.checkMove (refundList s2 hd.height ids)) s2
   if hd.p004Block = hd.height then checkAndMoveIn 0 (ρ.checkMove (refundList s3 0 ids)) s3 else s3
